@@ -225,6 +225,8 @@ pub struct Stats {
     pub samples: Vec<serde_json::Value>,
     pub known_hits: BTreeMap<String, u64>,
     pub enumerated: u64,
+    /// survey mode (VCHECK_SURVEY=1): failures by signature, with one example each; nothing is reported as a violation
+    pub survey: BTreeMap<String, (u64, String)>,
 }
 
 impl Stats {
@@ -246,6 +248,10 @@ impl Stats {
             *self.known_hits.entry(k).or_insert(0) += v;
         }
         self.enumerated += other.enumerated;
+        for (k, (n, msg)) in other.survey {
+            let e = self.survey.entry(k).or_insert((0, msg));
+            e.0 += n;
+        }
     }
 }
 
@@ -316,7 +322,10 @@ fn shard_search<P: Property>(
             record(&mut stats, &case, &obs);
             stats.enumerated += 1;
             if let Err(failure) = result {
-                if open_signatures.contains(&failure.signature) {
+                if survey_mode() {
+                    let e = stats.survey.entry(failure.signature.clone()).or_insert((0, failure.message.clone()));
+                    e.0 += 1;
+                } else if open_signatures.contains(&failure.signature) {
                     *stats.known_hits.entry(failure.signature.clone()).or_insert(0) += 1;
                 } else {
                     shared.stop.store(true, Ordering::Relaxed);
@@ -374,6 +383,12 @@ fn shard_search<P: Property>(
         match result {
             Ok(()) => Ok(()),
             Err(failure) => {
+                if survey_mode() {
+                    let mut st = stats_cell.borrow_mut();
+                    let e = st.survey.entry(failure.signature.clone()).or_insert((0, failure.message.clone()));
+                    e.0 += 1;
+                    return Ok(());
+                }
                 if !failed.get() && open_signatures.contains(&failure.signature) {
                     // exclusion leak of a listed finding: counted, search continues
                     *stats_cell.borrow_mut().known_hits.entry(failure.signature.clone()).or_insert(0) += 1;
@@ -430,6 +445,11 @@ fn record<C: Serialize>(stats: &mut Stats, case: &C, obs: &Obs) {
             }
         }
     }
+}
+
+pub fn survey_mode() -> bool {
+    static MODE: std::sync::OnceLock<bool> = std::sync::OnceLock::new();
+    *MODE.get_or_init(|| std::env::var("VCHECK_SURVEY").is_ok())
 }
 
 pub struct RunOutcome {
@@ -675,6 +695,17 @@ pub fn run_search<P: Property>(prop: Arc<P>, tier: Tier) -> i32 {
                 degenerate.push(format!("label '{}' occurs {} times in {} cases (floor {})", label, n, total.evaluations, floor));
             }
         }
+    }
+
+    if survey_mode() {
+        eprintln!("survey of {}: {} failing signatures", id, total.survey.len());
+        for (sig, (n, msg)) in &total.survey {
+            eprintln!("  {:>8}  {}\n            e.g. {}", n, sig, msg.lines().next().unwrap_or(""));
+        }
+        if own_scratch {
+            let _ = std::fs::remove_dir_all(&scratch);
+        }
+        return 2;
     }
 
     let wall = started.elapsed().as_secs_f64();
